@@ -73,6 +73,10 @@ CLAIMED = {
          "Exploration by generated search; Execute must return nil and render exactly the evaluator's true/false.",
          'Only the documented argument kinds are generated (identifier, field, index, chain); in piped form only expressions that evaluate without error on their own (they are evaluated before isset sees the value).',
          'DESIGN.md section 5/C17'),
+ 'C14': ('property-based testing (rapid), metamorphic + differential: abstract call chains printed in every equivalent surface form (plain nested calls, prefix colon, pipe, pipe with arguments, slots) over recording reflected functions / variadics / methods / jet.Func, compared with the directly applied chain (rendered bytes and call log); jet.Func vs reflected variadic twin; built-ins compared with the Go functions the docs name',
+         'Exploration by generated search over callable kind x surface form x slot position x arity (label histogram in the evidence); each stage must run exactly once, left to right, and receive converted arguments.',
+         "Values flowing through a chain are strings; numeric conversions are float literal -> int. Wrong counts, nil arguments, non-convertible arguments and misplaced SafeWriters (error, not panic) are exercised by C12's failing-action matrix.",
+         'DESIGN.md section 5/C14'),
 }
 PENDING = {}
 
